@@ -26,3 +26,59 @@ PROPS['C14'] = {
     'assumptions': ['trace!() lines of pull_data dropped (R1)'],
 }
 NOT_APPLICABLE = {}
+
+_PARSE_TRUST = ['byteorder BigEndian::{read_u16,read_u128,write_u16} = big-endian byte arithmetic (shims/bytes.rs; cross-checked by KX k_shim_*)',
+                '<[T]>::to_vec, <[T]>::contains, [u8;N]==[u8;N] element-wise, slice len <= isize::MAX (shims/std.rs, shims/arrays.rs)',
+                'Fingerprint::compute = uninterpreted spec_crc32 (crc crate trusted; bounded differential check only)',
+                'Fingerprint::from_raw contract assumed in VX, discharged on the real code by KX harness k_fingerprint (bytewise_xor! is outside the Verus subset)']
+
+PROPS['C02'] = {
+    'level': 'proof',
+    'vx': [{'unit': 'parse', 'functions': ['from_bytes', 'parse', 'padded_attr_len', 'padded_len', 'get_type', 'transaction_id', 'next', 'length', 'deref', 'try_from', 'data_length', 'new']}],
+    'bx': ['c02'],
+    'rule': 'Verus verification conditions, one query per extracted function / lemma of unit parse.',
+    'proved': ['Message::from_bytes: Ok <==> wf_message(bytes) (spec predicate written from the statement), message == buffer',
+               'error causes: <20 bytes Truncated{20,len}; bad top bits/cookie NotStun; declared>available Truncated{declared+20,len}; NotStun/FingerprintMismatch/AttributeAfter* only named truthfully',
+               'get_type / transaction_id read the RFC fields; MessageAttributesIter::next yields exactly exposed(bytes) with type, length and value bytes of each TLV'],
+    'bounded': ['raw_attribute / has_attribute / attribute (iterator adaptors find/any) : BX only', 'exact variant/type of interior rejections: BX differential against the reference decoder'],
+    'trusted': _PARSE_TRUST,
+}
+PROPS['C17'] = {
+    'level': 'proof',
+    'vx': [{'unit': 'parse', 'functions': ['MessageHeader :: from_bytes', "Message<'a> :: from_bytes", 'MessageType :: from_bytes', 'data_length', 'try_from']}],
+    'bx': ['c17'],
+    'rule': 'Verus verification conditions of unit parse (header + from_bytes contracts) and the prefix lemma.',
+    'proved': ['MessageHeader::from_bytes Ok <==> hdr_ok; fields equal RFC field extraction (same as full parse)',
+               'from_bytes: len<20 ==> Truncated{20,len}; hdr_ok and declared+20>len ==> Truncated{declared+20,len}',
+               'lemma_prefix_truncated: every strict prefix of a well-formed message is reported Truncated with expected 20 / exactly len(m)'],
+    'bounded': [],
+    'trusted': _PARSE_TRUST,
+}
+PROPS['C10'] = {
+    'level': 'proof',
+    'vx': [{'unit': 'parse', 'functions': ['next', "Message<'a> :: from_bytes", 'RawAttribute', 'padded']}],
+    'bx': ['c10'],
+    'rule': 'Verus verification conditions of unit parse (iterator contract against the exposed-stream spec).',
+    'proved': ['MessageAttributesIter::next yields exactly exposed_from(bytes, 20, 0): everything up to and including the first integrity attribute, MI-SHA256 directly after MI, FINGERPRINT; hidden attributes are skipped',
+               'lemma_exposed_prefix_stable: exposed attributes before the first integrity attribute depend only on the bytes before its end'],
+    'bounded': ['lookups raw_attribute/has_attribute/attribute go through iterator adaptors: BX'],
+    'trusted': _PARSE_TRUST,
+}
+PROPS['C09'] = {
+    'level': 'proof',
+    'vx': [{'unit': 'parse', 'functions': ["Message<'a> :: from_bytes", 'fingerprint']}],
+    'bx': ['c09'],
+    'rule': 'Verus verification conditions of unit parse; fp_ok clause of wf_message.',
+    'proved': ['accepted buffer with FINGERPRINT at o: value == crc32(bytes[..o] with length field o+8-20) ^ 0x5354554e (fp_ok inside wf_message), and o+8 == len'],
+    'bounded': ['Fingerprint::compute == CRC-32/ISO-HDLC (BX vs bitwise reference, KX bounded)', 'builder side add_fingerprint (BX)', 'all single-bit flips / bursts / byte substitutions on a corpus (BX)'],
+    'trusted': _PARSE_TRUST,
+}
+PROPS['C01'] = {
+    'level': 'proof',
+    'vx': [{'unit': 'parse'}],
+    'bx': ['c01'],
+    'rule': 'Verus exec-mode VCs (index, slice, arithmetic overflow, unwrap, unreached, termination) of every extracted decoding function with precondition true on the bytes.',
+    'proved': ['no panic / overflow / OOB / non-termination for AttributeHeader::parse, RawAttribute::from_bytes, MessageType::from_bytes, MessageHeader::from_bytes, Message::from_bytes, MessageAttributesIter::next for every byte string'],
+    'bounded': ['check_attribute_types, Display/Debug, tracing argument expressions: BX only'],
+    'trusted': _PARSE_TRUST,
+}
